@@ -1,4 +1,4 @@
 #!/bin/bash
 # quick look: run the given checks against a seeded change (in a scratch worktree and a private copy of /verif: tools/seedtest.py)
 P=$1; shift
-python3 /verif/tools/seedtest.py "$P" "$@" | grep -E "^C[0-9]+ " | cut -c1-200
+SEEDTEST_TAG=_q python3 /verif/tools/seedtest.py "$P" "$@" | grep -E "^C[0-9]+ " | cut -c1-200
